@@ -12,7 +12,7 @@ from typing import Any
 
 from vlib import knxip_gen as g
 from vlib.vloop import new_loop, patch_multicast
-from xknx.exceptions import CouldNotParseKNXIP
+from xknx.exceptions import CouldNotParseKNXIP, IncompleteKNXIPFrame
 from vlib import refcrypto_ip as ref
 from vlib.peers_secure import SecureRoutingPeer, SecureServer
 from xknx.io import ip_secure
@@ -116,12 +116,36 @@ class Pools:
 # running one stream
 
 
+class UserCallbackError(RuntimeError):
+    """What a registered user callback may raise that has nothing to do with KNX/IP parsing."""
+
+
+# set while streams with a raising callback are run: {"name": str, "exc": class, "at": set of delivery ordinals}
+_RAISE: list[Any] = [None]
+
+
+def _recording_callback(got: list[Any]) -> Any:
+    """The registered callback: records the frame; raises on selected deliveries if _RAISE is set."""
+    plan = _RAISE[0]
+
+    def callback(frame: Any, src: Any, transport: Any) -> None:
+        got.append(frame)
+        if plan is not None and (len(got) - 1) in plan["at"]:
+            raise plan["exc"]("raised by the registered callback")
+
+    return callback
+
+
 def _feed_direct(chunks: list[bytes], got: list[Any], state: dict[str, Any]) -> None:
     tr = TCPTransport(ADDR)
-    tr.register_callback(lambda frame, src, t: got.append(frame))
+    tr.register_callback(_recording_callback(got))
     for i, chunk in enumerate(chunks):
         state["chunk"] = i
-        tr.data_received_callback(chunk)
+        try:
+            tr.data_received_callback(chunk)
+        except UserCallbackError:
+            # an exception class of the user's callback: its own business, recorded only
+            state["user_callback_errors"] = state.get("user_callback_errors", 0) + 1
     state["chunk"] = len(chunks)
 
 
@@ -158,6 +182,10 @@ def _run_stream(ctx: Any, kind: str, items: list[tuple[str, bytes, Any]], chunks
         "n_frames": len(items),
         "chunk_lengths": [len(c) for c in chunks][:200],
     }
+    plan = _RAISE[0]
+    if plan is not None:
+        witness["callback_raises"] = {"exception": plan["name"], "at_deliveries": sorted(plan["at"])}
+        ctx.count("tcp_streams_with_raising_callback_" + plan["name"])
     exc: Any = None
     if via == "direct":
         res = g.budgeted(_feed_direct, (chunks, got, state), 5000 + 2000 * len(chunks) + 400 * total, wall_s=20, heap=False)
@@ -165,7 +193,7 @@ def _run_stream(ctx: Any, kind: str, items: list[tuple[str, bytes, Any]], chunks
     else:
         n_before = len(loop.exceptions)
         tr = TCPTransport(ADDR)
-        tr.register_callback(lambda frame, src, t: got.append(frame))
+        tr.register_callback(_recording_callback(got))
 
         async def scenario() -> None:
             await tr.connect()
@@ -177,8 +205,12 @@ def _run_stream(ctx: Any, kind: str, items: list[tuple[str, bytes, Any]], chunks
 
         res = g.budgeted(loop.run, (scenario(),), 200000 + 4000 * len(chunks) + 400 * total, wall_s=20, heap=False)
         exc = res["exc"]
-        if exc is None and len(loop.exceptions) > n_before:
-            rec = loop.exceptions[n_before]
+        user_errs = [r for r in loop.exceptions[n_before:] if r["type"] == "UserCallbackError"]
+        if user_errs:
+            state["user_callback_errors"] = len(user_errs)
+        others = [r for r in loop.exceptions[n_before:] if r["type"] != "UserCallbackError"]
+        if exc is None and others:
+            rec = others[0]
             witness["loop_handler"] = rec
             ctx.count("tcp_exceptions_seen_by_loop_handler")
             # asyncio hands BaseExceptions raised in a callback to the handler too: map the monitor's own back
@@ -205,6 +237,13 @@ def _run_stream(ctx: Any, kind: str, items: list[tuple[str, bytes, Any]], chunks
         )
         ctx.distinct(("tcp", kind, via, "exception", name))
         return False
+    if plan is not None and plan["exc"] is UserCallbackError:
+        # not judged: an unrelated exception class of a user callback ends the processing of that chunk
+        expected = [f for _k, _d, f in items if f is not None]
+        ctx.count("recorded_tcp_user_callback_error_escaped", state.get("user_callback_errors", 0))
+        ctx.count("recorded_tcp_user_callback_error_delivery_" + ("equal" if _mismatch(expected, got) is None else "differs"))
+        ctx.distinct(("tcp", kind, via, "recorded"))
+        return True
     # delivery oracle
     garbage_at = next((i for i, (k, _d, _f) in enumerate(items) if k in ("unreadable", "partial-tail")), len(items))
     expected_all = [f for k, _d, f in items[:garbage_at] if f is not None]
@@ -227,6 +266,8 @@ def _run_stream(ctx: Any, kind: str, items: list[tuple[str, bytes, Any]], chunks
         mech = "tcp-more-frames-delivered-than-in-stream"
     else:
         mech = "tcp-delivered-frame-differs-or-out-of-order"
+    if plan is not None:
+        mech += "-when-" + kind
     witness["expected_n"] = len(expected_all)
     witness["delivered_n"] = len(judged_got)
     witness["first_difference_at"] = bad
@@ -397,6 +438,53 @@ def tcp_part(ctx: Any, rng: Any, pools: Pools) -> None:
         for _ in range(ctx.scale(1, 4)):
             cuts = sorted(set(rng.randrange(1, len(data)) for _ in range(rng.choice((2, 5, 40)))))
             run_stream(ctx, kind, items, _split(data, cuts), via="loop" if rng.random() < 0.3 else "direct", loop=loop2)
+    # 6. registered callbacks that raise on selected well-formed frames: every frame is still delivered exactly once, in order
+    try:
+        for ci, (name, cls) in enumerate((("CouldNotParseKNXIP", CouldNotParseKNXIP), ("IncompleteKNXIPFrame", IncompleteKNXIPFrame), ("UserCallbackError", UserCallbackError))):
+            kind = "callback-raises-" + name
+
+            def plan_for(n_valid: int) -> None:
+                at = {rng.randrange(0, max(1, n_valid - 1))}
+                if n_valid > 2 and rng.random() < 0.5:
+                    at.add(rng.randrange(0, n_valid))
+                _RAISE[0] = {"name": name, "exc": cls, "at": at}
+
+            made = 0
+            while made < ctx.scale(2, 8):  # short: every boundary set
+                items = _mk_stream(rng, pools, "valid-only", 2, tiny=True)
+                total = sum(len(d) for _k, d, _f in items)
+                if total > ctx.scale(12, 14):
+                    continue
+                made += 1
+                if ctx.mine(made + ci):
+                    plan_for(2)
+                    ctx.count("tcp_raising_callback_streams")
+                    _all_chunkings(ctx, kind, items, list(range(1, total)))
+            for i in range(ctx.scale(6, 60)):  # medium: subsets of cut points around the boundaries
+                items = _mk_stream(rng, pools, "valid-only", rng.randrange(3, 6))
+                if not ctx.mine(i + ci):
+                    continue
+                cand = []
+                for b in _boundaries(items)[:-1]:
+                    cand += [b - 1, b, b + 1, b + 6]
+                rng.shuffle(cand)
+                plan_for(len(items))
+                ctx.count("tcp_raising_callback_streams")
+                _all_chunkings(ctx, kind, items, cand[: ctx.scale(7, 10)])
+            for i in range(ctx.scale(20, 400)):  # long: one chunk, byte by byte, random; also through the loop transport
+                items = _mk_stream(rng, pools, rng.choice(("valid-only", "after-malformed-frame")), rng.randrange(3, 25))
+                if not ctx.mine(i + ci):
+                    continue
+                data = b"".join(d for _k, d, _f in items)
+                plan_for(sum(1 for _k, _d, f in items if f is not None))
+                ctx.count("tcp_raising_callback_streams")
+                run_stream(ctx, kind, items, [data])
+                if len(data) <= 800:
+                    run_stream(ctx, kind, items, [data[j : j + 1] for j in range(len(data))])
+                cuts = sorted(set(rng.randrange(1, len(data)) for _ in range(rng.choice((1, 3, 10)))))
+                run_stream(ctx, kind, items, _split(data, cuts), via="loop" if i % 3 == 0 else "direct", loop=loop2)
+    finally:
+        _RAISE[0] = None
     loop2.finish()
     # 4. many minimal frames in one chunk (a 256 KiB socket read holds > 40000 of them)
     sizes = ctx.scale((200, 990, 1000, 5000), (200, 990, 1000, 5000, 40000))
@@ -566,8 +654,11 @@ def _small_valid(rng: Any, pools: Pools) -> bytes:
 def _inner_frames(rng: Any, pools: Pools) -> bytes:
     """What goes inside a wrapper: capped so that the wrapper (38 octets more) stays far below 65535 octets."""
     r = rng.random()
-    if r < 0.55:
+    if r < 0.45:
         return _small_valid(rng, pools)
+    if r < 0.55:
+        inner = _small_valid(rng, pools)  # truncated inner frame: the header announces more than the wrapper carries
+        return inner[: rng.randrange(1, len(inner))]
     if r < 0.7:
         return rng.choice(pools.bad_cnp)
     if r < 0.8:
@@ -869,12 +960,104 @@ def secure_group_history(ctx: Any, rng: Any, pools: Pools, index: int) -> None:
         ctx.distinct(("secure-group", phase, via, min(len(sent), 10), bool(got)))
 
 
+def secure_session_delivery_history(ctx: Any, rng: Any, pools: Pools, index: int) -> None:
+    """Authenticated session, only authentic fresh wrappers (some with a truncated inner frame), a callback that raises on selected
+    deliveries: every complete inner frame reaches the callback exactly once, in order; nothing of the CouldNotParseKNXIP family escapes."""
+    name, cls = (("none", None), ("CouldNotParseKNXIP", CouldNotParseKNXIP), ("IncompleteKNXIPFrame", IncompleteKNXIPFrame))[index % 3]
+    user_pw, dev_pw, user_id = CREDS[index % len(CREDS)]
+    loop = new_loop()
+    sid = rng.choice((1, 2, 0x1234))
+    server = SecureServer(loop, server_private_raw=rng.randbytes(32), device_password=dev_pw, users={user_id: user_pw}, session_id=sid, auto_tunnel=False)
+    loop.on_connection = server.attach
+    got: list[Any] = []
+    escapes: list[str] = []
+    expected: list[Any] = []
+    witness: dict[str, Any] = {"transport": "secure-sessiondelivery", "index": index, "callback_raises": name}
+    ctx.ev()
+    ctx.count("secure_session_delivery_histories")
+    n_items = rng.randrange(3, 12)
+    raise_at = set() if cls is None else {rng.randrange(0, n_items) for _ in range(rng.choice((1, 2)))}
+
+    def callback(frame: Any, src: Any, transport: Any) -> None:
+        got.append(frame)
+        if cls is not None and (len(got) - 1) in raise_at:
+            raise cls("raised by the registered callback")
+
+    async def scenario() -> None:
+        session = SecureSession(remote_addr=ADDR, user_id=user_id, user_password=user_pw, device_authentication_password=dev_pw)
+        await asyncio.wait_for(session.connect(), timeout=10)
+        session.register_callback(callback)
+        raws = []
+        kinds = []
+        for _ in range(n_items):
+            inner = _small_valid(rng, pools)
+            while inner[2:4] in (b"\x09\x50", b"\x09\x54"):
+                inner = _small_valid(rng, pools)
+            if rng.random() < 0.25:
+                kinds.append("truncated-inner")
+                inner = inner[: rng.randrange(1, len(inner))]
+            else:
+                kinds.append("complete-inner")
+                expected.append(_isolated(inner)[0])
+            raws.append(server.wrapped(inner))
+        data = b"".join(raws)
+        r = rng.random()
+        cuts = [] if r < 0.3 else sorted(set(rng.randrange(1, len(data)) for _ in range(rng.choice((1, 4, 15)))))
+        chunks = _split(data, cuts)
+        witness.update(inner_kinds=kinds, raise_at_deliveries=sorted(raise_at), chunk_lengths=[len(c) for c in chunks][:60], n_wrappers=n_items)
+        stream = loop.stream_transports[-1]
+        for i, chunk in enumerate(chunks):
+            ctx.count("secure_session_delivery_chunks_fed")
+            n_loop = len(loop.exceptions)
+            try:
+                if index % 4 == 3:
+                    stream.deliver_later(0.0005, chunk)
+                else:
+                    stream.deliver(chunk)
+            except Exception as err:  # noqa: BLE001 - this is the monitor
+                escapes.append(type(err).__name__)
+            await asyncio.sleep(0.001)
+            escapes.extend(str(rec["type"]) for rec in _loop_records(loop, n_loop))
+        session.stop()
+        await asyncio.sleep(0.01)
+
+    res = g.budgeted(loop.run, (scenario(),), 3_000_000, wall_s=60, heap=False)
+    loop.finish()
+    exc = res["exc"]
+    if isinstance(exc, g.WallBackstop):
+        ctx.inconclusive("wall-clock backstop fired in a secure session delivery history")
+        return
+    if isinstance(exc, g.StepBudgetExceeded):
+        _flag(ctx, "session", "step-budget-exceeded", "delivery-history", dict(witness, exception=str(exc)))
+        return
+    if exc is not None:
+        raise exc
+    suffix = "" if cls is None else "-when-callback-raises-" + name
+    for e in sorted(set(escapes)):
+        _flag(ctx, "session", "step-budget-exceeded" if e == "StepBudgetExceeded" else e, "initialized-on-SECURE_WRAPPER" + suffix, dict(witness, exception=e))
+    if escapes:
+        return
+    expected_ok = [f for f in expected if f is not None]
+    bad = _mismatch(expected_ok, got)
+    ctx.count("secure_session_delivery_frames_expected", len(expected_ok))
+    if bad is None:
+        ctx.count("secure_session_delivery_lists_equal")
+        ctx.distinct(("secure-session-delivery", name, min(n_items, 8), len(witness.get("chunk_lengths", [])) > 1))
+        return
+    mech = "secure-session-inner-frame-lost" if len(got) < len(expected_ok) else (
+        "secure-session-more-inner-frames-delivered-than-sent" if len(got) > len(expected_ok) else "secure-session-delivered-inner-frame-differs")
+    ctx.violation(mech + suffix, dict(witness, expected_n=len(expected_ok), delivered_n=len(got), first_difference_at=bad),
+                  f"SecureSession: {len(got)} inner frames reached the callback, {len(expected_ok)} complete ones were sent in authentic wrappers "
+                  f"(callback raises {name} at deliveries {sorted(raise_at)}); first difference at #{bad}")
+    ctx.distinct(("secure-session-delivery", name, mech))
+
+
 def _one_secure_history(ctx: Any, pools: Pools, kind: str, index: int) -> None:
     """Histories draw from their own generator (seed, kind, index) so that a witness can be replayed alone."""
     hrng = random.Random(f"c22-secure/{ctx.seed}/{kind}/{index}")
     random.seed(f"c22-secure-global/{ctx.seed}/{kind}/{index}")  # xknx draws message tags / notify delays from the global generator
     with _secure_patches([random.Random(hrng.randrange(1 << 30))]):
-        (secure_session_history if kind == "session" else secure_group_history)(ctx, hrng, pools, index)
+        {"session": secure_session_history, "group": secure_group_history, "sessiondelivery": secure_session_delivery_history}[kind](ctx, hrng, pools, index)
 
 
 def secure_part(ctx: Any, rng: Any, pools: Pools) -> None:
@@ -883,7 +1066,7 @@ def secure_part(ctx: Any, rng: Any, pools: Pools) -> None:
         ctx.inconclusive("reference crypto self test failed: " + "; ".join(self_test)[:200])
         return
     patch_multicast()
-    for kind, n in (("session", ctx.scale(160, 4000)), ("group", ctx.scale(120, 3000))):
+    for kind, n in (("session", ctx.scale(160, 4000)), ("group", ctx.scale(120, 3000)), ("sessiondelivery", ctx.scale(60, 1500))):
         for i in range(n):
             if ctx.mine(i):
                 g.guarded(ctx, "secure " + kind + " history", _one_secure_history, ctx, pools, kind, i)
@@ -897,9 +1080,11 @@ def run(ctx: Any) -> None:
     )
     ctx.require("tcp_streams_run", "tcp_delivery_lists_equal", "tcp_exhaustive_chunkings", "tcp_frames_delivered", "udp_datagrams_fed",
                 "udp_no_exception", "pool_valid", "pool_malformed_readable_length", "pool_unreadable_header",
-                "tcp_streams_through_loop_transport", "udp_datagrams_through_loop_transport", "tcp_many_frames_one_chunk", "tcp_big_frame_streams",
+                "tcp_streams_through_loop_transport", "udp_datagrams_through_loop_transport", "tcp_many_frames_one_chunk", "tcp_big_frame_streams", "tcp_raising_callback_streams",
+                "tcp_streams_with_raising_callback_CouldNotParseKNXIP", "tcp_streams_with_raising_callback_IncompleteKNXIPFrame",
                 "secure_session_chunks_fed", "secure_session_handshakes_completed", "secure_session_frames_forwarded_to_callbacks",
-                "secure_group_datagrams_fed", "secure_group_synchronised", "secure_group_frames_forwarded_to_callbacks")
+                "secure_group_datagrams_fed", "secure_group_synchronised", "secure_group_frames_forwarded_to_callbacks",
+                "secure_session_delivery_lists_equal", "secure_session_delivery_frames_expected")
     rng = ctx.rng
     pools = g.guarded(ctx, "pools", Pools, ctx, rng)
     if pools is None:
@@ -945,6 +1130,10 @@ def replay(ctx: Any, witness: dict[str, Any]) -> None:
         pools = Pools(ctx, ctx.rng)
         _one_secure_history(ctx, pools, witness["transport"].split("-", 1)[1], witness["index"])
         return
+    if witness.get("callback_raises"):
+        cr = witness["callback_raises"]
+        cls = {"CouldNotParseKNXIP": CouldNotParseKNXIP, "IncompleteKNXIPFrame": IncompleteKNXIPFrame}.get(cr["exception"], UserCallbackError)
+        _RAISE[0] = {"name": cr["exception"], "exc": cls, "at": set(cr["at_deliveries"])}
     frames = witness["frames"]
     if witness["n_frames"] > len(frames) or any(f["len"] > 200 and not f.get("constant_filler") for f in frames):
         if witness["stream_kind"] == "many-frames-in-one-chunk":
